@@ -82,9 +82,12 @@ thread_local! {
     pub static POLICY: RefCell<Policy> = RefCell::new(Policy::new());
 }
 
+pub static MAX_SERVED: std::sync::atomic::AtomicU64 = std::sync::atomic::AtomicU64::new(0);
+
 pub fn reset(read: Sched, write: Sched, fault: Option<Fault>) {
     POLICY.with(|p| {
         let mut p = p.borrow_mut();
+        MAX_SERVED.fetch_max(p.served, std::sync::atomic::Ordering::Relaxed);
         let seed = match (&read, &write) {
             (Sched::Random(a), Sched::Random(b)) => a ^ (b << 20),
             (Sched::Random(a), _) | (_, Sched::Random(a)) => *a,
@@ -158,12 +161,7 @@ pub fn io_error(kind: &str) -> io::Error {
 pub fn plan(is_read: bool, len: usize) -> Result<usize, io::Error> {
     POLICY.with(|p| {
         let mut p = p.borrow_mut();
-        // watchdog: no scenario needs anywhere near this many I/O calls; a loop that retries forever
-        // (e.g. re-sending a whole buffer after every interruption) is ended with a plain error
         p.served += 1;
-        if p.served > 40_000_000 {
-            return Err(io::Error::new(io::ErrorKind::Other, "watchdog: runaway I/O loop (more than 40 million calls in one scenario)"));
-        }
         let sched = if is_read { p.read.clone() } else { p.write.clone() };
         let n = match sched {
             Sched::Whole => len,
@@ -211,11 +209,17 @@ pub fn plan(is_read: bool, len: usize) -> Result<usize, io::Error> {
 pub struct Sink {
     pub data: Vec<u8>,
     pub writes: u64,
+    /// watchdog: no correct writer can hand more bytes than this to the sink for the entries it was
+    /// given; a retry loop in the code under test that re-sends data forever is ended with an error
+    pub limit: usize,
 }
 
 impl Sink {
     pub fn new() -> Sink {
-        Sink { data: Vec::new(), writes: 0 }
+        Sink { data: Vec::new(), writes: 0, limit: usize::MAX }
+    }
+    pub fn with_limit(limit: usize) -> Sink {
+        Sink { data: Vec::new(), writes: 0, limit }
     }
 }
 
@@ -231,6 +235,9 @@ impl io::Write for Sink {
             return Ok(0);
         }
         let n = plan(false, buf.len())?;
+        if self.data.len() + n > self.limit {
+            return Err(io::Error::new(io::ErrorKind::Other, "watchdog: the stream exceeds any possible size of this file (runaway write loop)"));
+        }
         self.data.extend_from_slice(&buf[..n]);
         self.writes += 1;
         Ok(n)
